@@ -503,7 +503,10 @@ class Interp(object):
         spec = self.engine.loop_spec(fr, s, ordinal, it)
         if spec is None:
             raise Undecided('loop over %s without invariant at %s' % (it.kind, self.ctx.where))
-        from .loops import exec_for_cut
+        from .loops import exec_for_cut, PrefixCut
+        if isinstance(spec, PrefixCut):
+            spec.hook(self, fr, it)
+            raise PathEnd('cut')
         exec_for_cut(self, s, fr, it, spec)
 
     def static_items(self, it):
@@ -666,8 +669,20 @@ class Interp(object):
         raise Undecided('binary %s on %s,%s' % (op.__class__.__name__, a.kind, b.kind))
 
     def ex_Compare(self, e, fr):
-        left = self.eval(e.left, fr)
         n = len(e.ops)
+        if n > 1 and all(isinstance(x, (ast.Name, ast.Constant)) for x in [e.left] + list(e.comparators)):
+            # a chain over plain names / literals has no side effects: a < b < c is (a < b) and (b < c), no path split needed
+            # (unless a later comparison could raise: then the short-circuit order matters and the general form below is used)
+            try:
+                vals = [self.eval(x, fr) for x in [e.left] + list(e.comparators)]
+                cs = [self.compare(op, a, b) for op, a, b in zip(e.ops, vals, vals[1:])]
+                out = True
+                for c in cs:
+                    out = self._and(out, c)
+                return VBool(zbool(out))
+            except PyRaise:
+                pass
+        left = self.eval(e.left, fr)
         for i, (op, rhs) in enumerate(zip(e.ops, e.comparators)):
             right = self.eval(rhs, fr)
             c = self.compare(op, left, right)
@@ -1449,6 +1464,16 @@ class Interp(object):
                 return m2(self, recv, argv, kwv)
             raise Undecided('method %s.%s at %s' % (k, name, self.ctx.where))
         return m(recv, argv, kwv)
+
+    def m_opaque_add_node(self, recv, argv, kwv):
+        if recv.tag != 'nxdigraph':
+            raise Undecided('add_node on %s' % recv.tag)
+        return VNone            # the content of a plain networkx DiGraph built by the function is not modelled
+
+    def m_opaque_add_edge(self, recv, argv, kwv):
+        if recv.tag != 'nxdigraph':
+            raise Undecided('add_edge on %s' % recv.tag)
+        return VNone
 
     def m_row_get(self, row, argv, kwv):
         key = argv[0]
